@@ -76,6 +76,20 @@ BUILTINS['zip'] = lambda *a: list(zip(*a))
 BUILTINS['frozenset'] = frozenset
 BUILTINS['isinstance'] = lambda v, t: isinstance(v, t) if isinstance(t, (type, tuple)) and all(isinstance(x, type) for x in (t if isinstance(t, tuple) else (t,))) else (_ for _ in ()).throw(Unsupported('isinstance with a model class'))
 TYPE_METHODS = {('dict', 'fromkeys'): dict.fromkeys}
+import functools as _functools
+import operator as _operator
+# pure standard library functions that may appear by their dotted name (as a value or called)
+DOTTED = {'operator.or_': _operator.or_, 'operator.and_': _operator.and_, 'operator.xor': _operator.xor, 'operator.add': _operator.add,
+          'operator.mul': _operator.mul, 'operator.sub': _operator.sub, 'operator.lshift': _operator.lshift, 'operator.rshift': _operator.rshift}
+
+
+def _reduce(fn, seq, *init):
+    if not any(fn is f for f in DOTTED.values()):
+        raise Unsupported('functools.reduce with a function outside the operator table')
+    return _functools.reduce(fn, list(seq), *init)
+
+
+DOTTED_CALLS = {'functools.reduce': _reduce}
 TYPE_VALUES = {'int': int, 'str': str, 'bytes': bytes, 'bytearray': bytearray, 'bool': bool, 'list': list, 'tuple': tuple, 'dict': dict, 'set': set}
 
 
@@ -207,6 +221,8 @@ class Evaluator:
                 base = None
             if isinstance(base, Native) and hasattr(base, n.attr):
                 return getattr(base, n.attr)
+        if isinstance(n, ast.Attribute) and ast.unparse(n) in DOTTED and ast.unparse(n).split('.')[0] not in self.env:
+            return DOTTED[ast.unparse(n)]
         if isinstance(n, ast.Attribute) and isinstance(n.value, ast.Name) and n.value.id in ('self', 'cls') and self.owner is not None:
             # a class level constant (size limit, table, format string) reached through self / cls
             var = self.owner.resolve_var(n.attr) if hasattr(self.owner, 'resolve_var') else None
@@ -246,6 +262,12 @@ class Evaluator:
             raise Raised(ast.unparse(n.args[0]))
         args = [self.ev(a) for a in n.args]
         kwargs = {k.arg: self.ev(k.value) for k in n.keywords}
+        d = ast.unparse(n.func)
+        if (d in DOTTED_CALLS or d in DOTTED) and d.split('.')[0] not in self.env:
+            try:
+                return (DOTTED_CALLS.get(d) or DOTTED[d])(*args, **kwargs)
+            except TypeError as e:
+                raise Unsupported('%s: %s' % (ast.unparse(n)[:60], e))
         if isinstance(n.func, ast.Attribute) and isinstance(n.func.value, ast.Name) and n.func.value.id not in self.env and \
                 (n.func.value.id, n.func.attr) in TYPE_METHODS:
             return TYPE_METHODS[(n.func.value.id, n.func.attr)](*args, **kwargs)
